@@ -6,6 +6,7 @@ that start a digraph or trigraph (`? < % :`, whose spelling is *translated*, see
 state after the literal, its diagnostics and the shape of its value depend on the LENGTH of
 the text only.
 -/
+import NormModel.Proofs.Ident
 import NormModel.Proofs.Opaque
 namespace Norm.C17
 open Norm
@@ -31,6 +32,29 @@ theorem string_body_swap (b1 b2 tl : List Char) (s1 s2 : LexSt) (v : List Char)
   refine ⟨?_, rfl, by simp [hlen]⟩
   rw [hs]
   simp [shiftCols, hlen]
+
+/-- **Replacing the contents of a string literal changes nothing but its value** (token level): two
+literals with the same encoding prefix whose bodies are opaque text of the same length, followed
+by the same text, are lexed from the same state to the same state; the two STRING tokens have the
+same position and extent and differ only in the text they carry; no diagnostic is added. -/
+theorem swap_token (u : Uni) (pre : String) (hp : pre ∈ litPrefixes) (b1 b2 rest : List Char)
+    (hlen : b1.length = b2.length)
+    (h1 : ∀ c ∈ b1, OpaqueChar c ∧ c ≠ '"') (h2 : ∀ c ∈ b2, OpaqueChar c ∧ c ≠ '"')
+    (s1 s2 : LexSt) (hr1 : s1.rest = pre.toList ++ '"' :: (b1 ++ '"' :: rest))
+    (hs2 : s2 = { s1 with rest := pre.toList ++ '"' :: (b2 ++ '"' :: rest) }) :
+    ∃ s' t1 t2, trySubLexers u s1 = .ok (some (s', t1)) ∧ trySubLexers u s2 = .ok (some (s', t2)) ∧
+      t1.type = "STRING" ∧ t2.type = "STRING" ∧ t1.line = t2.line ∧ t1.col = t2.col ∧
+      t1.start = t2.start ∧ t1.stop = t2.stop ∧ s'.diags = s1.diags ∧ s'.rest = rest := by
+  obtain ⟨t1, a1, a2, a3, a4, a5, a6, a7⟩ := string_valid_state u pre hp b1 h1 rest s1 hr1
+  obtain ⟨t2, c1, c2, c3, c4, c5, c6, c7⟩ := string_valid_state u pre hp b2 h2 rest s2 (by rw [hs2])
+  subst hs2
+  have e : shiftCols { s1 with rest := pre.toList ++ '"' :: (b2 ++ '"' :: rest) } (pre.toList.length + 1 + (b2.length + 1)) rest
+      = shiftCols s1 (pre.toList.length + 1 + (b1.length + 1)) rest := by
+    simp [shiftCols, hlen]
+  rw [e] at c1
+  refine ⟨_, t1, t2, a1, c1, a2, c2, by rw [a4, c4], by rw [a5, c5], by rw [a6, c6], by rw [a7, c7, hlen], ?_, ?_⟩
+  · simp [shiftCols]
+  · simp [shiftCols]
 
 /-- the code-like alphabet of the property that is opaque in this sense -/
 def opaqueAlphabet : List Char :=
